@@ -215,15 +215,31 @@ def rcls_of(item):
     raise ReflectError(f'unknown renderer class {cls.__name__}')
 
 
+# table names the render model (coq/model/Render.v) looks up, with their lengths on the pinned tree: used only when the
+# reflective extraction below does not find a table (renderer restructured beyond what it understands) - Tie B is then
+# unavailable for that table and Tie A compares the renderer with the pinned lengths
+PINNED_RENDER_TABLES = {'calib_strings': 4, 'fusion_mode_strings': 4, 'gnss_system_names': 8, 'gps_fix_strings': 6, 'imu_init_strings': 4,
+                        'ins_init_strings': 4, 'mnt_alg_strings': 8, 'sensor_types': 19, 'status_strings': 8, 'time_strings': 4, 'type_names': 5,
+                        'wt_init_strings': 4, 'charlen_str': 4, 'parity_str': 8, 'stopbits_str': 4}
+RENDER_FALLBACK = []
+
+
 def render_tables():
-    """Lengths of the lookup tables used by the table-driven renderers: class-level list attributes of
-    Item subclasses and list literals assigned inside their __str__ (AST)."""
+    """Lengths of the lookup tables used by the table-driven renderers: class-level list/tuple attributes of
+    Item subclasses and list/tuple literals assigned inside their methods (AST). Names are compared without leading
+    underscores and case."""
     import ast
     import inspect as ins
     import textwrap
     import ubxlib
     from ubxlib import types as T
     out = {}
+
+    def put(an, n):
+        an = an.lstrip('_').lower()
+        if an in out and out[an] != n:
+            raise ReflectError(f'table name {an} defined twice with different lengths')
+        out[an] = n
     for m in pkgutil.iter_modules(ubxlib.__path__):
         if not m.name.startswith('ubx_'):
             continue
@@ -232,19 +248,25 @@ def render_tables():
             if not (issubclass(c, T.Item) and c.__module__ == mod.__name__):
                 continue
             for an, av in vars(c).items():
-                if isinstance(av, list) and all(isinstance(x, str) for x in av):
-                    if an in out and out[an] != len(av):
-                        raise ReflectError(f'table name {an} defined twice with different lengths')
-                    out[an] = len(av)
-            if '__str__' in vars(c):
-                tree = ast.parse(textwrap.dedent(ins.getsource(c.__str__)))
+                if isinstance(av, (list, tuple)) and av and all(isinstance(x, str) for x in av):
+                    put(an, len(av))
+            for fn_name, fn in vars(c).items():
+                if not ins.isfunction(fn):
+                    continue
+                try:
+                    tree = ast.parse(textwrap.dedent(ins.getsource(fn)))
+                except (OSError, SyntaxError):
+                    continue
                 for node in ast.walk(tree):
-                    if isinstance(node, ast.Assign) and isinstance(node.value, ast.List) and len(node.targets) == 1 \
-                            and isinstance(node.targets[0], ast.Name) and all(isinstance(e, ast.Constant) for e in node.value.elts):
-                        an = node.targets[0].id
-                        if an in out and out[an] != len(node.value.elts):
-                            raise ReflectError(f'table name {an} defined twice with different lengths')
-                        out[an] = len(node.value.elts)
+                    if isinstance(node, ast.Assign) and isinstance(node.value, (ast.List, ast.Tuple)) and len(node.targets) == 1 \
+                            and isinstance(node.targets[0], ast.Name) and node.value.elts \
+                            and all(isinstance(e, ast.Constant) and isinstance(e.value, str) for e in node.value.elts):
+                        put(node.targets[0].id, len(node.value.elts))
+    del RENDER_FALLBACK[:]
+    for an, n in PINNED_RENDER_TABLES.items():
+        if an not in out:
+            out[an] = n
+            RENDER_FALLBACK.append(an)
     return out
 
 
